@@ -465,3 +465,161 @@ Proof.
   apply bind_no_oof; [apply parse_abbr_no_oof|]. intros tree _.
   apply bind_no_oof; [apply resolve_terminates|]. intros; discriminate.
 Qed.
+
+(* ------------------------------------------------------------------ nesting depth: fuel counts the
+   nesting of snippets (it is decremented exactly when a definition is entered), so "more fuel changes
+   nothing" is "the nesting never reaches the fuel" *)
+Lemma bind_congr {A B} : forall (r1 r2 : res A) (f1 f2 : A -> res B),
+  bind r1 f1 <> OutOfFuel ->
+  (r1 <> OutOfFuel -> r2 = r1) ->
+  (forall a, r1 = Ok a -> f1 a <> OutOfFuel -> f2 a = f1 a) ->
+  bind r2 f2 = bind r1 f1.
+Proof.
+  intros r1 r2 f1 f2 H Hr Hf. destruct r1 as [a| | |]; simpl in *.
+  - rewrite Hr by discriminate. simpl. apply Hf; [reflexivity|exact H].
+  - rewrite Hr by discriminate. reflexivity.
+  - rewrite Hr by discriminate. reflexivity.
+  - contradiction.
+Qed.
+
+Section Mono.
+  Variable rec1 rec2 : list str -> list anode -> res (list anode).
+  Variable cfg : mconfig.
+  Variable stack : list str.
+  Hypothesis Hrec : forall stk l, rec1 stk l <> OutOfFuel -> rec2 stk l = rec1 stk l.
+
+  Lemma wkids_mono : forall ch,
+    Forall (fun n => wnode rec1 cfg stack n <> OutOfFuel -> wnode rec2 cfg stack n = wnode rec1 cfg stack n) ch ->
+    wkids rec1 cfg stack ch <> OutOfFuel -> wkids rec2 cfg stack ch = wkids rec1 cfg stack ch.
+  Proof.
+    induction ch as [|c k IH]; intros F H; [reflexivity|]. inversion F as [|? ? Fc Fk]; subst. simpl in *.
+    apply bind_congr; [exact H|exact Fc|]. intros a Ha Hb.
+    apply bind_congr; [exact Hb|apply IH; assumption|]. intros; reflexivity.
+  Qed.
+
+  Lemma wnode_mono : forall n, wnode rec1 cfg stack n <> OutOfFuel -> wnode rec2 cfg stack n = wnode rec1 cfg stack n.
+  Proof.
+    apply (anode_ind' (fun n => wnode rec1 cfg stack n <> OutOfFuel -> wnode rec2 cfg stack n = wnode rec1 cfg stack n)).
+    intros nm v rp at_ ch sc F. rewrite !wnode_eq.
+    destruct (snippet_of cfg stack nm) as [s|]; intro H.
+    - apply bind_congr; [exact H|reflexivity|]. intros parsed _ H2.
+      apply bind_congr; [exact H2|apply Hrec|]. intros resolved _ H3. cbv zeta in *.
+      destruct (map _ resolved); [reflexivity|].
+      apply bind_congr; [exact H3|apply wkids_mono; exact F|]. intros; reflexivity.
+    - apply bind_congr; [exact H|apply wkids_mono; exact F|]. intros; reflexivity.
+  Qed.
+
+  Lemma wlist_mono : forall l, wlist rec1 cfg stack l <> OutOfFuel -> wlist rec2 cfg stack l = wlist rec1 cfg stack l.
+  Proof.
+    induction l as [|c r IH]; intro H; [reflexivity|]. simpl in *.
+    apply bind_congr; [exact H|apply wnode_mono|]. intros a _ H2.
+    apply bind_congr; [exact H2|exact IH|]. intros; reflexivity.
+  Qed.
+End Mono.
+
+Theorem walk_resolve_mono : forall cfg f stack l,
+  walk_resolve f cfg stack l <> OutOfFuel ->
+  forall f', f <= f' -> walk_resolve f' cfg stack l = walk_resolve f cfg stack l.
+Proof.
+  intros cfg. induction f as [|f IH]; intros stack l H f' LE; [exfalso; apply H; reflexivity|].
+  destruct f' as [|f']; [lia|]. rewrite !walk_resolve_unfold in *.
+  apply wlist_mono; [|exact H]. intros stk l0 H0. apply IH; [exact H0|lia].
+Qed.
+
+(* nesting is never deeper than the number of snippets: any larger fuel gives the same result *)
+Theorem resolve_depth : forall (cfg : mconfig) (l : list anode) (fuel : nat),
+  S (length (mc_snippets cfg)) <= fuel ->
+  walk_resolve fuel cfg [] l = walk_resolve (S (length (mc_snippets cfg))) cfg [] l.
+Proof. intros. apply walk_resolve_mono; [apply resolve_terminates|assumption]. Qed.
+
+(* ------------------------------------------------------------------ alias = definition with the alias data merged in *)
+Lemma wkids_wlist : forall rec cfg stack l, wkids rec cfg stack l = wlist rec cfg stack l.
+Proof. induction l as [|c r IH]; simpl; [reflexivity|]. rewrite IH. reflexivity. Qed.
+
+Lemma bind_ok_app_nil {A} : forall (r : res (list A)),
+  (let* here := r in let* others := Ok [] in Ok (here ++ others)) = r.
+Proof. intros [a| | |]; simpl; [rewrite app_nil_r|..]; reflexivity. Qed.
+
+(* what the resolver puts in place of an alias node [n] whose name has the definition [s]:
+   the definition's forest, resolved with [s] on the guard stack, every top-level node merged with the
+   alias (attributes appended -- prepended under reverseAttributes --, value / repeater / self-closing
+   mark of the alias override), the alias' own (resolved) children under the deepest last node *)
+Theorem alias_merge : forall f cfg stack nm v rp at_ ch sc s,
+  snippet_of cfg stack nm = Some s ->
+  walk_resolve (S f) cfg stack [ANode nm v rp at_ ch sc] =
+  let* parsed := parse_abbr false (snippet_env cfg) (mc_max_repeat_snip cfg) s in
+  let* resolved := walk_resolve f cfg (s :: stack) parsed in
+  let tops := map (merge_into (mc_reverse_attrs cfg) (ANode nm v rp at_ ch sc)) resolved in
+  match tops with
+  | [] => Ok []
+  | _ :: _ => let* kids := walk_resolve (S f) cfg stack ch in Ok (attach_deepest tops kids)
+  end.
+Proof.
+  intros f cfg stack nm v rp at_ ch sc s E.
+  rewrite !walk_resolve_unfold.
+  change (wlist (walk_resolve f cfg) cfg stack [ANode nm v rp at_ ch sc])
+    with (let* here := wnode (walk_resolve f cfg) cfg stack (ANode nm v rp at_ ch sc) in
+          let* others := Ok [] in Ok (here ++ others)).
+  rewrite bind_ok_app_nil, wnode_eq, E, wkids_wlist. reflexivity.
+Qed.
+
+(* a node that is not an alias (no snippet, or its definition is being resolved) stays, its children are resolved *)
+Theorem non_alias_kept : forall f cfg stack nm v rp at_ ch sc,
+  snippet_of cfg stack nm = None ->
+  walk_resolve (S f) cfg stack [ANode nm v rp at_ ch sc] =
+  let* kids := walk_resolve (S f) cfg stack ch in Ok [ANode nm v rp at_ kids sc].
+Proof.
+  intros f cfg stack nm v rp at_ ch sc E.
+  rewrite !walk_resolve_unfold.
+  change (wlist (walk_resolve f cfg) cfg stack [ANode nm v rp at_ ch sc])
+    with (let* here := wnode (walk_resolve f cfg) cfg stack (ANode nm v rp at_ ch sc) in
+          let* others := Ok [] in Ok (here ++ others)).
+  rewrite bind_ok_app_nil, wnode_eq, E, wkids_wlist. reflexivity.
+Qed.
+
+(* merging a bare alias (no attributes, value, repeater, children, self-closing mark) changes nothing *)
+Lemma merge_into_bare : forall rv nm top, merge_into rv (ANode nm None None None [] false) top = top.
+Proof. intros rv nm [n v rp at_ ch sc]. reflexivity. Qed.
+
+Lemma map_id_ext {A} : forall (f : A -> A) l, (forall x, f x = x) -> map f l = l.
+Proof. intros f l H. induction l; simpl; [reflexivity|]. rewrite H, IHl. reflexivity. Qed.
+
+Lemma on_deepest_id : forall f, (forall n, f n = n) -> forall n, on_deepest f n = n.
+Proof.
+  intros f Hf. apply anode_ind'. intros nm v rp at_ ch sc F.
+  simpl. destruct (rev ch) eqn:E; [apply Hf|]. f_equal.
+  clear E. induction ch as [|x r IH]; [reflexivity|].
+  inversion F; subst. destruct r as [|y r']; [rewrite H1; reflexivity|].
+  rewrite IH by assumption. reflexivity.
+Qed.
+
+Lemma drop_last_last {A} : forall (l : list A) x, last_opt l = Some x -> drop_last l ++ [x] = l.
+Proof.
+  intros l x H. unfold last_opt in H. destruct (rev l) as [|y r] eqn:E; [discriminate|]. inversion H; subst y.
+  assert (L : l = rev r ++ [x]) by (rewrite <- (rev_involutive l), E; reflexivity).
+  unfold drop_last. rewrite L, app_length. simpl.
+  replace (length (rev r) + 1 - 1) with (length (rev r)) by lia.
+  rewrite firstn_app, firstn_all, Nat.sub_diag. simpl. rewrite app_nil_r. reflexivity.
+Qed.
+
+Lemma attach_deepest_nil : forall l, attach_deepest l [] = l.
+Proof.
+  intro l. unfold attach_deepest, on_last_deepest. destruct (last_opt l) as [x|] eqn:E; [|reflexivity].
+  rewrite on_deepest_id; [apply drop_last_last; exact E|].
+  intros [nm v rp at_ ch sc]. simpl. rewrite app_nil_r. reflexivity.
+Qed.
+
+(* a bare snippet name resolves to exactly what its definition resolves to in its place *)
+Theorem alias_bare_eq_definition : forall f cfg stack nm s,
+  snippet_of cfg stack nm = Some s ->
+  walk_resolve (S f) cfg stack [ANode nm None None None [] false] =
+  let* parsed := parse_abbr false (snippet_env cfg) (mc_max_repeat_snip cfg) s in
+  walk_resolve f cfg (s :: stack) parsed.
+Proof.
+  intros f cfg stack nm s E. rewrite (alias_merge f cfg stack nm None None None [] false s E).
+  destruct (parse_abbr false (snippet_env cfg) (mc_max_repeat_snip cfg) s) as [parsed| | |]; try reflexivity.
+  simpl. destruct (walk_resolve f cfg (s :: stack) parsed) as [resolved| | |]; try reflexivity.
+  simpl. rewrite map_id_ext by (intro; apply merge_into_bare).
+  destruct resolved as [|r0 rs]; [reflexivity|].
+  simpl. rewrite attach_deepest_nil. reflexivity.
+Qed.
